@@ -32,7 +32,7 @@ InitModel(cfg) ==
       largeRefused |-> FALSE,
       pend     |-> NoPend,
       call     |-> [api |-> "none", intent |-> [none |-> 1]],
-      ntx |-> 0, corrupted |-> FALSE,                            \* frames sent in the current call; one of its replies was corrupted
+      ntx |-> 0, corrupted |-> FALSE, corrEncap |-> FALSE,                            \* frames sent in the current call; one of its replies was corrupted
       nIntent  |-> 0,                                            \* frames of the current call that carry its intent
       last     |-> [k |-> "none"],                               \* what the target answered to the intent frame
       inClose  |-> FALSE,
@@ -314,6 +314,7 @@ TxStep(m, ev) ==
     IF r.fail # "" \/ ~Has(ev.choice, "corrupt") \/ r.m.pend.kind # "reply" THEN r
     ELSE LET c == ev.choice.corrupt  clean == r.m.pend.bytes  bad == Corrupt(clean, c) IN
          Good([r.m EXCEPT !.pend = [kind |-> "reply", bytes |-> bad, tell |-> [k |-> "none"]], !.corrupted = TRUE,
+                          !.corrEncap = @ \/ (c[1] \in {"encap", "status32"} /\ c[2] # 0),
                           !.last = [k |-> "corrupt", how |-> c[1], short |-> Len(bad) < StatusEnd(clean), encap |-> c[1] \in {"encap", "status32"} /\ c[2] # 0,
                                     lost |-> Len(clean) - Len(bad)]])
 
@@ -361,6 +362,7 @@ RetStep(m, ev) ==
              (IF TagTruthy(tg[1]) THEN Bad(m, "C13:success-on-error+C14:refused-truthy")
               ELSE IF ~IsS(tg[1].error) \/ Len(tg[1].error.s) = 0 THEN Bad(m, "C13:empty-error+C14:status-text")
               ELSE IF ~NamesStatusT(m.texts, tg[1].error, m.last.status) THEN Bad(m, "C13:status-not-named+C14:status-text")
+              ELSE IF ~StatusMeaningOk(m.last.status, tg[1].error.s) THEN Bad(m, "C13:status-meaning")      \* the text is that of another status
               \* an additional status the library has a text for (one word, or two words with a zero high word) is named too
               ELSE LET e == m.last.ext
                        known == IF Len(e) = 1 \/ (Len(e) = 2 /\ e[2] = 0)
@@ -399,6 +401,8 @@ RetStep(m, ev) ==
         IF ev.outcome # "value" THEN Good(m)
         ELSE IF m.ntx = 1 /\ m.last.short /\ (\E i \in 1..Len(tgs) : TagTruthy(tgs[i])) THEN Bad(m, "C13:short-reply-success")
         ELSE IF m.ntx = 1 /\ m.last.encap /\ (\E i \in 1..Len(tgs) : TagTruthy(tgs[i])) THEN Bad(m, "C13:success-on-error")
+        \* one request served by several replies (fragments): an encapsulation error on any of them fails the request
+        ELSE IF Len(tgs) = 1 /\ m.corrEncap /\ TagTruthy(tgs[1]) THEN Bad(m, "C13:success-on-error")
         \* the only reply of a single read lost its tail (well framed, status 0): the data is shorter than what was addressed
         \* (timer / counter sub-elements are read as whole elements of which only a part is used: not demanded there)
         ELSE IF m.ntx = 1 /\ api = "read" /\ Len(tgs) = 1 /\ m.last.how = "trunc" /\ m.last.lost > 0 /\ TagTruthy(tgs[1])
@@ -425,7 +429,7 @@ RetStep(m, ev) ==
 (* ------------------------------------------------------------------------------------------------------------ *)
 Step(m, ev) ==
     CASE ev.k = "call" ->
-           Good([m EXCEPT !.call = [api |-> ev.api, intent |-> ev.intent], !.nIntent = 0, !.last = [k |-> "none"], !.ntx = 0, !.corrupted = FALSE,
+           Good([m EXCEPT !.call = [api |-> ev.api, intent |-> ev.intent], !.nIntent = 0, !.last = [k |-> "none"], !.ntx = 0, !.corrupted = FALSE, !.corrEncap = FALSE,
                           !.slcPre = m.slc, !.slcIdx = 0,
                           !.inClose = ev.api \in {"close", "exit"}, !.closeFault = FALSE,
                           !.policy = IF ev.api = "_env" /\ Has(ev.intent, "policy") THEN ev.intent.policy ELSE @,   \* the target's admission policy changes
